@@ -127,7 +127,17 @@ TABLE = {
 }
 
 
+def write_roots():
+    """library root files importing every module (needed by `lake build` of the whole library)"""
+    for lib in ("EntraitModel", "EntraitProofs"):
+        d = os.path.join(ROOT, "lean", lib)
+        mods = sorted(f[:-5] for f in os.listdir(d) if f.endswith(".lean"))
+        with open(os.path.join(ROOT, "lean", lib + ".lean"), "w") as f:
+            f.write("".join("import %s.%s\n" % (lib, m) for m in mods))
+
+
 def main():
+    write_roots()
     checks = []
     na = []
     for k in range(1, 21):
